@@ -2030,7 +2030,7 @@ def hyperboloid_coords(points, column_vectors=False):
 
     proj_coords = points
     if column_vectors:
-        proj_coords = coords.swapaxes(-1, -2)
+        proj_coords = proj_coords.swapaxes(-1, -2)
 
     dim = proj_coords.shape[-1]
     hyperbolized = utils.normalize(proj_coords, minkowski(dim))
